@@ -490,6 +490,22 @@ func (fr *frame) havocAssign(a string, env *Env, h *Heap, st *State, x ssa.Instr
 		}
 		_, inner, _ := w.heapSort[key].ArrParts()
 		return h.set(key, Ite(g, Store(h.get(key), arr, vc.fresh("Hc!"+key, inner)), h.get(key)))
+	case strings.HasPrefix(a, "ghost(") && strings.HasSuffix(a, ")"):
+		// ghost(p): the ghost integer cell attached to object p
+		e, err := parseExpr(a[6 : len(a)-1])
+		if err != nil {
+			vc.errorf("assigns of %s: %v", cname, err)
+			return h
+		}
+		tv, err := env.Compile(e)
+		if err != nil || tv.T == nil || tv.T.Sort != SInt {
+			vc.errorf("assigns of %s: %q: not an object reference (%v)", cname, a, err)
+			return h
+		}
+		if !fr.isDiscovery {
+			fr.frameCheck("GH:int", tv.T, nil, st, x)
+		}
+		return h.set("GH:int", Store(h.get("GH:int"), tv.T, vc.fresh("Hc!GH", SInt)))
 	case strings.HasPrefix(a, "*"):
 		// *p : the cell p points to (pointer to a non-struct or external type)
 		e, err := parseExpr(a[1:])
